@@ -219,7 +219,7 @@ def _build_cel(c, r):
 def _build_ref(c1, r1, c2, r2, anchor=''):
     (c1, r1), v2 = _build_cel(c1, r1), '{}{}'.format(*_build_cel(c2, r2))
     v1 = '{}{}{}'.format(c1, r1, anchor)
-    if v1 == v2 and c1 and r1:
+    if v1.upper() == v2.upper() and c1 and r1:  # A1:a1 is the cell A1.
         if v1:
             return v1
         raise ValueError
